@@ -510,6 +510,11 @@ class BaseEvent(BaseModel, Generic[T_EventResultType]):
             except Exception:
                 # Ignore exceptions here - we'll handle them based on raise_if_any below
                 pass
+            except BaseException as e:
+                # A recorded error may be a BaseException (e.g. the CancelledError of an interrupted handler): that is still
+                # only a recorded handler error. Anything else (this task being cancelled, KeyboardInterrupt) must propagate
+                if e is not event_result.error:
+                    raise
 
         event_results: dict[PythonIdStr, EventResult[T_EventResultType]] = {
             handler_key: event_result for handler_key, event_result in self.event_results.items()
